@@ -729,7 +729,40 @@ def promo_case(ctx, c):
                 ctx.ok(('promotion', opname, s1, s2), True)
 
 
+def eviction_case(ctx, c):
+    """Two Arrays of one dtype made a long time apart (hundreds of other dtypes used in between) are still Arrays of one dtype."""
+    spec, items = c['dtype'], c['items']
+    with util.options(lsb0=False):
+        a = Array(spec, items)
+        for w in range(c['from'], c['from'] + c['n']):          # pushes every earlier entry out of the dtype caches (256 entries)
+            bitstring.Dtype('uint', w)
+            bitstring.Dtype(f'int{w}')
+        b = Array(spec, items)
+        ctx.op('equals:after-dtype-cache-eviction')
+        got = call(lambda: (a.equals(b), b.equals(a), a.dtype == b.dtype, str(a.dtype) == str(b.dtype)))
+        if got != ('ok', (True, True, True, True)):
+            ctx.mismatch('C14|equals|same-dtype-made-after-cache-eviction|' + ('raised:' + type(got[1]).__name__ if got[0] == 'exc' else 'value'), c, f'{got!r:.120}')
+        else:
+            ctx.ok(('equals-after-eviction', spec), True)
+        a2 = copy.copy(a)
+        got = call(lambda: (a2.extend(b), a2.tolist())[1])
+        ctx.op('extend:after-dtype-cache-eviction')
+        if got[0] != 'ok' or not A.same_list(got[1], items + items):
+            ctx.mismatch('C14|extend|same-dtype-made-after-cache-eviction|' + ('raised:' + type(got[1]).__name__ if got[0] == 'exc' else 'value'), c, f'{got!r:.120}')
+        else:
+            ctx.ok(('extend-after-eviction', spec), True)
+        a3 = copy.copy(a)
+        got = call(lambda: (a3.__iadd__(b) if False else a3 + b).tolist())
+        if got[0] != 'ok' or not A.same_list(got[1], [x + y for x, y in zip(items, items)]):
+            ctx.mismatch('C14|arith:add|same-dtype-made-after-cache-eviction|' + ('raised:' + type(got[1]).__name__ if got[0] == 'exc' else 'value'), c, f'{got!r:.120}')
+        else:
+            ctx.ok(('add-after-eviction', spec), True)
+
+
 def run(ctx):
+    if ctx.shard in (0, 1):
+        for k, (spec, items) in enumerate((('uint8', [1, 2, 3]), ('float32', [0.5, -2.0]), ('<H', [1, 515]), ('int5', [-3, 4]), ('uint12', [7, 8, 9, 10]))):
+            ctx.run_case(eviction_case, {'kind': 'eviction', 'dtype': spec, 'items': items, 'from': 70 + 300 * ctx.shard + 17 * k, 'n': 300})
     i = 0
     for t1 in PROMO:
         for t2 in PROMO:
@@ -768,7 +801,9 @@ def run(ctx):
 
 
 def replay(ctx, case):
-    if case.get('kind') == 'promo':
+    if case.get('kind') == 'eviction':
+        ctx.run_case(eviction_case, case)
+    elif case.get('kind') == 'promo':
         ctx.run_case(promo_case, case)
     elif 'kind' in case:
         ctx.run_case(op_case, case)
